@@ -692,6 +692,27 @@ def c15(K, Ns):
     return out
 
 
+def c15_nightly(K, Ns):
+    """the nightly-only byte-array forms (configuration Kdn): byte b of the output with the digit that holds it, and back"""
+    out = []
+    for A in ADTS:
+        dby = db_of(A) // 8
+        for n in Ns:
+            sh = {"N": n}
+            nb = n * dby
+            for m, be in (("to_be_bytes", True), ("to_le_bytes", False), ("to_ne_bytes", False)):
+                fid = inh(A, m)
+                if exists(K, fid):
+                    req = [((b,), lab("a", [((nb - 1 - b) if be else b) // dby]), "byte %d of the output" % b) for b in range(nb)]
+                    out.append(row(K, "C15", fid, "N%d" % n, sh, [val_of(A, "a")], req, n))
+            for m, be in (("from_be_bytes", True), ("from_le_bytes", False), ("from_ne_bytes", False)):
+                fid = inh(A, m)
+                if exists(K, fid):
+                    req = [(dig_path(A) + (k,), {"s[%d]" % ((nb - 1 - b) if be else b) for b in range(k * dby, (k + 1) * dby)}, "digit %d of the value" % k) for k in range(n)]
+                    out.append(row(K, "C15", fid, "N%d" % n, sh, [("bytes", "s", nb)], req, n))
+    return out
+
+
 # ------------------------------------------------------------------------------------------------ C17
 def c17(K, Ns):
     out = []
@@ -912,4 +933,19 @@ def obligations(ctx, prop, tier):
             out += c09(K, Ns, pairs_for(tier))
         elif prop == "C13":
             out += c13(K, Ns, pairs_for(tier))
+    if prop == "C15":
+        from analysis import build
+        try:
+            Kn = ctx.k("Kdn")
+        except build.BuildFailed:
+            Kn = None           # the optional nightly configuration does not build: its rows do not exist (as for the F rows)
+        if Kn is not None:
+            out += c15_nightly(Kn, Ns)
+        else:
+            # keep the enumerated count independent of whether the optional configuration builds
+            for A in ADTS:
+                for m in ("to_be_bytes", "to_le_bytes", "to_ne_bytes", "from_be_bytes", "from_le_bytes", "from_ne_bytes"):
+                    for n in Ns:
+                        out.append(core.Ob("C15:D:Kdn:%s:N%d" % (inh(A, m), n), "C15", "D", "Kdn", inh(A, m), core.UNDECIDED,
+                                           "configuration Kdn (feature `nightly`) does not build on this tree: not decided"))
     return out
